@@ -116,6 +116,19 @@ class MinMaxLengthType(DiagCodedType):
                 f"(Is: {data_length} bytes.)", EncodeError)
             data_length = self.max_length
 
+        # the value must not contain the termination sequence at a
+        # location where the decoder looks for it, else only a part of
+        # the value would be retrieved when decoding
+        termination_sequence = self.__termination_sequence()
+        if len(termination_sequence) > 0:
+            pos = raw_value.find(termination_sequence, self.min_length)
+            while pos >= 0 and pos % len(termination_sequence) != 0:
+                pos = raw_value.find(termination_sequence, pos + 1)
+            if pos >= 0:
+                odxraise(
+                    f"Encoded value for MinMaxLengthType must not contain "
+                    f"the termination sequence 0x{termination_sequence.hex()}", EncodeError)
+
         encode_state.emplace_atomic_value(
             internal_value=raw_value,
             used_mask=None,
